@@ -85,6 +85,7 @@ DIST_TRACE = {"name": "dist-trace", "kind": "trace", "files": ["DecArith.tla", "
 VESTF = ["DecArith.tla", "VestingMath.tla", "Vesting.tla", "mc/MC_Vesting.tla"]
 VEST_TRACE = {"name": "vesting-trace", "kind": "trace", "files": VESTF + ["trace/Trace_Vesting.tla"], "module": "trace/Trace_Vesting.tla",
               "cfg": "trace/Trace_Vesting.cfg", "recorder": "trace-vesting", "corrupt_event": "msg", "corrupt_field": None, "corrupt_path": ["post", "modBal"],
+              "diag_owner": [("ok", None), ("pools", "C05"), ("modBal", "C05"), ("acct", None), ("locked", None), ("bal", None), ("traces", "C17"), ("summary", "C17")],
               "header": {"files": VESTF + ["mc/MBT_Vesting.tla"], "module": "mc/MBT_Vesting.tla", "cfg": "mc/MBT_Vesting_header.cfg"},
               "default_owner": "C05", "event_owner": {"msg": "C05", "delegate": "C07", "configure": "C05"},
               "msg_owner": {"createpool": "C05", "withdraw": "C06", "send": "C08", "createacc": "C08", "split": "C07", "move": "C07", "movedenoms": "C07"},
